@@ -47,7 +47,10 @@ class Contract(object):
         # function is compared with is DEFINED as that function's own result (representative choice); `ensures` is then the
         # defining equation, proved with the recursive calls replaced by the spec function (structural induction, meta-step)
         self.call_ensures = kw.pop("call_ensures", None)
-        self.verify_only = kw.pop("verify_only", False)   # verified against this contract, but call sites resolve to another declaration
+        self.verify_only = kw.pop("verify_only", False)
+        # execute the body only from the first top-level statement matching this text (AST pattern) to the end: what comes before is
+        # not executed, every declared local starts as an arbitrary value of its type (an over-approximation of any entry state)
+        self.from_stmt = kw.pop("from_stmt", None)   # verified against this contract, but call sites resolve to another declaration
         self.empties = kw.pop("empties", {})             # 'set'/'list'/'dict' -> type of untyped empty displays                    # clause -> known-finding condition
         if kw:
             raise TypeError("unknown contract keys: %s" % sorted(kw))
